@@ -530,7 +530,6 @@ static std::vector<Body> bodies(bool thorough, bool tsan)
   for (int a = 0; a < 5; ++a) for (int b = 0; b < 5; ++b) v.push_back(make_L({ a, b }, 1));
   v.push_back(make_L({ 0, 3 }, 3));   // span 3: get_det_pos_pair_for_bin (op 1) is only defined for span 1
   v.push_back(make_L({ 2, 2 }, 3));
-  if (thorough) for (int a = 0; a < 5; ++a) for (int b = a; b < 5; ++b) for (int c = b; c < 5; ++c) v.push_back(make_L({ a, b, c }, 1));
   // M
   for (int cm = 0; cm < 3; ++cm) for (int var = 0; var < 2; ++var) v.push_back(make_M(cm, var, 2));
   if (thorough) for (int cm = 1; cm < 3; ++cm) v.push_back(make_M(cm, 1, 3));
@@ -559,6 +558,9 @@ static std::vector<Body> bodies(bool thorough, bool tsan)
   // P
   for (int st = 0; st < 2; ++st) v.push_back(make_P(st, 2));
   if (thorough) for (int st = 0; st < 2; ++st) v.push_back(make_P(st, 3));
+  // L triples last: explored without a preemption bound they take most of the thorough tier's budget (two different tables in flight
+  // give > 10^6 schedules); everything above completes first, a deadline then only cuts into these
+  if (thorough) for (int a = 0; a < 5; ++a) for (int b = a; b < 5; ++b) for (int c = b; c < 5; ++c) v.push_back(make_L({ a, b, c }, 1));
   (void)tsan;
   return v;
 }
@@ -699,7 +701,7 @@ int main(int argc, char** argv)
           if (bound > 0 && bound > (kind == "L" ? (ctx.thorough() ? 99 : 3) : (kind == "D" || kind == "X" || kind == "LM") ? max_bound : max_bound + 1)) break;
           ex.explore(bound, r);
           last = r;
-          if (!r.complete) { ctx.exhaustive = false; break; }
+          if (!r.complete) { ctx.exhaustive = false; ctx.observe("deadline: body " + body.name + " not completed at preemption bound " + std::to_string(bound) + " (" + std::to_string(r.schedules) + " schedules explored)"); ctx.count("bodies_cut_by_deadline"); break; }
           ctx.maxi("preemption_bound_completed_" + kind, bound);
           if (ctx.expired()) break;
         }
